@@ -11,25 +11,26 @@ import (
 )
 
 type aggregate struct {
-	prop, tier  string
-	seed        uint64
-	plan        propPlan
-	evaluations int
-	perFlavour  map[string]int
-	distinct    map[string]bool // trace hashes of non-trivial runs
-	allHashes   map[string]bool
-	faults      map[string]int
-	probes      map[string]int
-	tags        map[string]map[string]int
-	outcomes    map[string]int
-	samples     []json.RawMessage
-	steps       int64
-	simNs       int64
-	deaths      int
-	violations  int
-	knownHits   map[string]int
-	wall        float64
-	exploreWall float64
+	prop, tier   string
+	seed         uint64
+	plan         propPlan
+	evaluations  int
+	perFlavour   map[string]int
+	distinct     map[string]bool // trace hashes of non-trivial runs
+	allHashes    map[string]bool
+	faults       map[string]int
+	probes       map[string]int
+	tags         map[string]map[string]int
+	outcomes     map[string]int
+	samples      []json.RawMessage
+	steps        int64
+	simNs        int64
+	deaths       int
+	violations   int
+	knownHits    map[string]int
+	wall         float64
+	exploreWall  float64
+	stoppedEarly bool
 
 	perFlavourPlanned map[string]int
 }
@@ -102,27 +103,28 @@ func (a *aggregate) workloadWarnings() []string {
 
 func (a *aggregate) write() error {
 	cov := map[string]any{
-		"evaluations":         a.evaluations,
-		"distinct_nontrivial": len(a.distinct),
-		"distinct_traces":     len(a.allHashes),
-		"rule":                a.plan.Rule,
-		"samples":             a.samples,
-		"runs_per_flavour":    a.perFlavour,
-		"fault_kinds_fired":   a.faults,
-		"probes_hit":          a.probes,
-		"outcomes":            a.outcomes,
-		"histograms":          a.tags,
-		"scheduler_steps":     a.steps,
-		"simulated_time_s":    float64(a.simNs) / 1e9,
-		"simulated_time_note": "sum of fake-clock jumps to context deadlines; the library reads no clock, so simulated time is not a meaningful coverage measure here",
-		"runs_per_hour":       int(float64(a.evaluations) / (a.exploreWall + 1e-9) * 3600),
-		"seeds":               fmt.Sprintf("run i uses seed mix(VERIF_SEED=%d, property, tier, i), i in [0,n) per flavour", a.seed),
-		"components_real":     a.plan.Real,
-		"components_stub":     a.plan.Stub,
-		"children_died":       a.deaths,
-		"known_findings_hit":  a.knownHits,
-		"workload_warnings":   a.workloadWarnings(),
-		"exhaustive":          false,
+		"evaluations":                    a.evaluations,
+		"distinct_nontrivial":            len(a.distinct),
+		"distinct_traces":                len(a.allHashes),
+		"rule":                           a.plan.Rule,
+		"samples":                        a.samples,
+		"runs_per_flavour":               a.perFlavour,
+		"fault_kinds_fired":              a.faults,
+		"probes_hit":                     a.probes,
+		"outcomes":                       a.outcomes,
+		"histograms":                     a.tags,
+		"scheduler_steps":                a.steps,
+		"simulated_time_s":               float64(a.simNs) / 1e9,
+		"simulated_time_note":            "sum of fake-clock jumps to context deadlines; the library reads no clock, so simulated time is not a meaningful coverage measure here",
+		"runs_per_hour":                  int(float64(a.evaluations) / (a.exploreWall + 1e-9) * 3600),
+		"seeds":                          fmt.Sprintf("run i uses seed mix(VERIF_SEED=%d, property, tier, i), i in [0,n) per flavour", a.seed),
+		"components_real":                a.plan.Real,
+		"components_stub":                a.plan.Stub,
+		"children_died":                  a.deaths,
+		"known_findings_hit":             a.knownHits,
+		"workload_warnings":              a.workloadWarnings(),
+		"exhaustive":                     false,
+		"stopped_early_after_violations": a.stoppedEarly,
 	}
 	if len(a.samples) == 0 {
 		cov["samples"] = []any{"no sample recorded"}
